@@ -912,6 +912,16 @@ pub fn initial_pools() -> Vec<MS> {
             s.slots = [l, t1, t2, v];
         }),
         mk(&|s| {
+            // separately allocated, structurally equal objects (for equal? and the search procedures)
+            let i1 = s.alloc(MO::Pair(MV::I(0), MV::Sym("a")));
+            let i2 = s.alloc(MO::Pair(MV::I(0), MV::Sym("a")));
+            let l1 = s.mk_list(&[MV::Sym("a")], MV::Nil);
+            let l2 = s.mk_list(&[MV::Sym("a")], MV::Nil);
+            let v1 = s.alloc(MO::Vector(vec![l1, MV::Ch('x')]));
+            let v2 = s.alloc(MO::Vector(vec![l2, MV::Ch('x')]));
+            s.slots = [i1, i2, v1, v2];
+        }),
+        mk(&|s| {
             let shared = s.mk_list(&[MV::I(0)], MV::Nil);
             let l = s.mk_list(&[shared.clone(), shared.clone()], MV::Nil);
             let v = s.alloc(MO::Vector(vec![shared.clone(), MV::Sym("a"), shared.clone()]));
@@ -1244,7 +1254,7 @@ pub fn run(ctx: &Ctx) -> i32 {
     rep.extra("operation_instances_in_alphabet", json!(ops.len()));
     rep.extra("state_cap_hit", json!(cap_hit));
     rep.rule = format!(
-        "Breadth-first search to depth {} from 6 initial pools over a reference store model: 4 named slots holding scalars (0 1 a #t () #\\x, small integers) or references into a store of pairs and vectors (spine <= 3, vector length <= 3, <= 8 objects, acyclic), canonicalised by renaming locations in first-visit order and dropping unreachable objects (sound because the language cannot observe addresses). Alphabet: {} operation instances over the slots (cons car cdr set-car! set-cdr! list length append reverse list-tail list-ref memq memv member assq assv assoc map (3 procedures, 1 and 2 lists) for-each (1 and 2 lists) list? vector make-vector vector-length vector-ref vector-set! vector-fill! vector->list list->vector vector-copy (with start) vector-copy! (at, start, end incl. overlapping) equal? and moves), indices from -1..len+1 and 2^62; an instance is enabled only where R7RS fixes the outcome. Every transition is executed on the real VM: the state is built from its canonical form, the operation applied, and the result (value vs required error) and the whole pool afterwards compared with the model: contents by value, identity by writing a marker through each object in turn and comparing which paths show it. Shortest paths of a sub-set of states are replayed from the initial pool in a fresh VM (state reached by operations = state built directly). Non-trivial = a transition whose outcome and full pool observation agreed.",
+        "Breadth-first search to depth {} from 7 initial pools over a reference store model: 4 named slots holding scalars (0 1 a #t () #\\x, small integers) or references into a store of pairs and vectors (spine <= 3, vector length <= 3, <= 8 objects, acyclic), canonicalised by renaming locations in first-visit order and dropping unreachable objects (sound because the language cannot observe addresses). Alphabet: {} operation instances over the slots (cons car cdr set-car! set-cdr! list length append reverse list-tail list-ref memq memv member assq assv assoc map (3 procedures, 1 and 2 lists) for-each (1 and 2 lists) list? vector make-vector vector-length vector-ref vector-set! vector-fill! vector->list list->vector vector-copy (with start) vector-copy! (at, start, end incl. overlapping) equal? and moves), indices from -1..len+1 and 2^62; an instance is enabled only where R7RS fixes the outcome. Every transition is executed on the real VM: the state is built from its canonical form, the operation applied, and the result (value vs required error) and the whole pool afterwards compared with the model: contents by value, identity by writing a marker through each object in turn and comparing which paths show it. Shortest paths of a sub-set of states are replayed from the initial pool in a fresh VM (state reached by operations = state built directly). Non-trivial = a transition whose outcome and full pool observation agreed.",
         depth_done, ops.len()
     );
     rep.assumptions.push("memq/assq/memv/assv get keys on which eq?/eqv? are fully specified; vector-copy's end argument is excluded (pinned non-R7RS meaning); calls whose outcome R7RS leaves open (car of a non-pair, assq on a list with non-pair elements, ...) are not enabled".into());
